@@ -73,6 +73,8 @@ def main():
         try:
             from common import config_guard
             config_guard(chk, facts.REPO)
+            from common import state_guard
+            state_guard(chk, prog)
             fn(chk, prog)
             if a.tier == "thorough":
                 import thorough
